@@ -221,7 +221,9 @@ func runConcurrent(seed int64, tier string) ([]*Scenario, []string) {
 				for i, c := range progs[t].cmds {
 					r.Do(c)
 					// random constructors may be called concurrently as well (shape and support only)
-					if i%3 == 0 {
+					// only in every other round: the global source's lock synchronises the goroutines, which can hide
+					// races elsewhere from the detector
+					if round%2 == 0 && i%3 == 0 {
 						u, err := tensor.RandU([]int{2, 2}, -1, 1, nil)
 						if err != nil || u.NElems() != 4 || u.Max() >= 1 || u.Min() < -1 {
 							panic("harness-conc: RandU violated shape/support under concurrency")
